@@ -299,4 +299,119 @@ theorem learnAll_go (b : Base) (hb : baseWF b = true) :
       learn_adv b hb sq (by simp at hseq; omega) g hg.1 hg.2.1, hrest]
     simp
 
+/-! ### withdrawals -/
+
+theorem routeWithdraw_roundtrip (m : RouteWd) (h : routeWithdrawC.wf m = true) :
+    decodeRouteWithdraw (routeWithdrawC.enc m) = some m :=
+  decodeTop_roundtrip routeWithdraw_sound 26 m h
+    ((by unfold routeWithdrawC; codec_minlen : routeWithdrawC.MinLen 26) m h)
+
+theorem toIPNet_toRoute (e : Entry) (h : entryWF e = true) (hc : isCidr e = true) :
+    toIPNet (toRoute e) = some e := by
+  cases e with
+  | cidr fam plen ip m =>
+    simp only [entryWF, Bool.and_eq_true, Bool.or_eq_true, beq_iff_eq, decide_eq_true_eq] at h
+    rcases h.1 with ⟨⟨hf, hl⟩, _⟩ | ⟨⟨hf, hl⟩, _⟩
+    · subst hf
+      have hne : ip.isEmpty = false := by cases ip <;> simp_all
+      simp [toIPNet, toRoute, hne, fitTo_self 4 ip hl]
+    · subst hf
+      have hne : ip.isEmpty = false := by cases ip <;> simp_all
+      simp [toIPNet, toRoute, hne, fitTo_self 16 ip hl]
+  | domain p w m => simp [isCidr] at hc
+  | forward k t m => simp [isCidr] at hc
+  | agent id m => simp [isCidr] at hc
+
+theorem filterMap_toIPNet_toRoute (es : List Entry) (h : es.all entryWF = true)
+    (hc : es.all isCidr = true) : (es.map toRoute).filterMap toIPNet = es := by
+  induction es with
+  | nil => rfl
+  | cons e es ih =>
+    have h' : entryWF e = true ∧ es.all entryWF = true := by simpa using h
+    have hc' : isCidr e = true ∧ es.all isCidr = true := by simpa using hc
+    simp [toIPNet_toRoute e h'.1 hc'.1, ih h'.2 hc'.2]
+
+/-- a CIDR entry becomes a route that fits the ROUTE_WITHDRAW wire format -/
+theorem toRoute_wdwf (e : Entry) (h : entryWF e = true) (hc : isCidr e = true) :
+    wdRouteC.wf (toRoute e) = true := by
+  cases e with
+  | cidr fam plen ip m =>
+    simp only [entryWF, Bool.and_eq_true, Bool.or_eq_true, beq_iff_eq, decide_eq_true_eq] at h
+    rcases h.1 with ⟨⟨hf, hl⟩, hp⟩ | ⟨⟨hf, hl⟩, hp⟩
+    · subst hf
+      simp [wdRouteC, C05.seq, dep, be, toRoute, wdPrefixLen, bytesN, hl]; omega
+    · subst hf
+      simp [wdRouteC, C05.seq, dep, be, toRoute, wdPrefixLen, bytesN, hl]; omega
+  | domain p w m => simp [isCidr] at hc
+  | forward k t m => simp [isCidr] at hc
+  | agent id m => simp [isCidr] at hc
+
+theorem wdRoute_enc_length (r : PRoute) : (wdRouteC.enc r).length = routeSize r := by
+  simp [wdRouteC, C05.seq, dep, be, bytesN, routeSize]; omega
+
+theorem encAll_wdRoute_length (l : List PRoute) : (encAll wdRouteC l).length = sizeOf l := by
+  induction l with
+  | nil => rfl
+  | cons r rs ih =>
+    have : encAll wdRouteC (r :: rs) = wdRouteC.enc r ++ encAll wdRouteC rs := by simp [encAll]
+    rw [this, List.length_append, ih, wdRoute_enc_length]
+    simp [sizeOf]
+
+theorem wd_enc_length (self : Bytes) (sq : Nat) (g : List PRoute) :
+    (routeWithdrawC.enc (self, sq, g, [self])).length = withdrawFixed self + sizeOf g := by
+  have := encAll_wdRoute_length g
+  simp [withdrawFixed, routeWithdrawC, C05.seq, be, listN, bytesN, encAll] at this ⊢
+  omega
+
+theorem withdrawFixed_eq (self : Bytes) (h : self.length = 16) : withdrawFixed self = 42 := by
+  simp [withdrawFixed, routeWithdrawC, C05.seq, be, listN, bytesN, encAll, h]
+
+theorem wd_wf (self : Bytes) (hs : self.length = 16) (sq : Nat) (hseq : sq < 2 ^ 64)
+    (g : List PRoute) (hg : g.length ≤ 255) (hall : g.all wdRouteC.wf = true) :
+    routeWithdrawC.wf (self, sq, g, [self]) = true := by
+  simp only [routeWithdrawC, C05.seq, Bool.and_eq_true]
+  refine ⟨by simp [bytesN, hs], by simp [be]; omega, ?_, by simp [listN, bytesN, hs]⟩
+  simp [listN, hall]; omega
+
+theorem learnWithdraw_enc (self : Bytes) (hs : self.length = 16) (sq : Nat) (hseq : sq < 2 ^ 64)
+    (g : List PRoute) (hg : g.length ≤ 255) (hall : g.all wdRouteC.wf = true) :
+    learnWithdraw (routeWithdrawC.enc (self, sq, g, [self])) = some (g.filterMap toIPNet) := by
+  unfold learnWithdraw
+  rw [routeWithdraw_roundtrip _ (wd_wf self hs sq hseq g hg hall)]
+
+theorem withdrawAll_go (self : Bytes) (hs : self.length = 16) :
+    ∀ (groups : List (List PRoute)) (sq : Nat), sq + groups.length ≤ 2 ^ 64 →
+      (∀ g ∈ groups, g.length ≤ 255 ∧ g.all wdRouteC.wf = true ∧
+        withdrawFixed self + sizeOf g ≤ maxPayload) →
+      withdrawAll (withdrawLocal.go self sq groups) = some (groups.flatten.filterMap toIPNet) := by
+  intro groups
+  induction groups with
+  | nil => intro sq _ _; rfl
+  | cons g gs ih =>
+    intro sq hseq hgs
+    have hg := hgs g (by simp)
+    have hrest := ih (sq + 1) (by simp at hseq; omega) (fun x hx => hgs x (by simp [hx]))
+    have hdel : deliver (routeWithdrawC.enc (self, sq, g, [self])) =
+        some (routeWithdrawC.enc (self, sq, g, [self])) := by
+      unfold deliver
+      rw [if_neg (by rw [wd_enc_length]; omega)]
+    simp only [withdrawLocal.go, withdrawAll, hdel,
+      learnWithdraw_enc self hs sq (by simp at hseq; omega) g hg.1 hg.2.1, hrest]
+    simp
+
+theorem splitRoutes_length_le (budget : Nat) (rs : List PRoute) :
+    (splitRoutes budget rs).length ≤ rs.length + 1 := by
+  have : ∀ (rs cur : List PRoute) (size : Nat),
+      (splitLoop budget rs cur size).length ≤ rs.length + 1 := by
+    intro rs
+    induction rs with
+    | nil => intro cur size; simp [splitLoop]
+    | cons r rs ih =>
+      intro cur size
+      unfold splitLoop
+      split
+      · have := ih [r] (routeSize r); simp; omega
+      · have := ih (r :: cur) (size + routeSize r); simp; omega
+  simpa [splitRoutes] using this rs [] 0
+
 end MM.C06
